@@ -26,11 +26,13 @@ TplB == [processes |-> (<<"q", "p2">> :> "B.p2"),
          topology  |-> (<<"q", "p2">> :> "B.p2.topo") @@ (<<"s1">> :> "B.s1.topo"),
          state     |-> <<>>]
 Tpl(t) == IF t = "A" THEN TplA ELSE TplB
-\* loose entries: a process nested under "agents" with its topology and state
+\* loose entries: a process and a step nested under "agents" with their
+\* topology, the step's flow entry, and state
 Loose(n) == [processes |-> (<<"agents", n>> :> ("L." \o n)),
-             steps     |-> <<>>,
-             flow      |-> <<>>,
-             topology  |-> (<<"agents", n>> :> ("L." \o n \o ".topo")),
+             steps     |-> (<<"agents", n \o "s">> :> ("LS." \o n)),
+             flow      |-> (<<"agents", n \o "s">> :> ("LS." \o n \o ".flow")),
+             topology  |-> (<<"agents", n>> :> ("L." \o n \o ".topo"))
+                           @@ (<<"agents", n \o "s">> :> ("LS." \o n \o ".topo")),
              state     |-> (<<"agents", "st", n>> :> ("L." \o n \o ".state"))]
 
 \* loose entries nested under "q", a key that template B also nests under
@@ -72,7 +74,17 @@ MergeBoth(i, j, n, path) ==
   /\ objs' = [objs EXCEPT ![i] = MergeC(objs[i], MergeC(objs[j], LooseQ(n), <<>>), path)]
   /\ steps' = steps + 1 /\ last' = [a |-> "both", i |-> i, j |-> j, n |-> n, path |-> path]
 
+\* loading a composite back from the store generated from it (either entry
+\* point: get_composite_from_store, Composite(store=...)) gives a new object with
+\* the same processes, steps, flow and topology; its state is the full state of
+\* the store, which this model does not describe (projected away: <<>>)
+Reload(i) ==
+  /\ Len(objs) < MaxObjs /\ steps < MaxSteps /\ i \in DOMAIN objs
+  /\ objs' = Append(objs, [objs[i] EXCEPT !.state = <<>>])
+  /\ steps' = steps + 1 /\ last' = [a |-> "reload", i |-> i]
+
 Next ==
+  \/ \E i \in DOMAIN objs : Reload(i)
   \/ \E i, j \in DOMAIN objs, n \in {"n1"}, path \in {<<>>, <<"x">>} : MergeBoth(i, j, n, path)
   \/ \E t \in {"A", "B"}, path \in EmbedPaths : Generate(t, path)
   \/ \E i, j \in DOMAIN objs, path \in EmbedPaths : MergeComposite(i, j, path)
@@ -92,6 +104,12 @@ C16_MergeIsUnion ==
                DOMAIN objs[last'.i][p] \cup {last'.path \o q : q \in DOMAIN objs[last'.j][p]}
           /\ \A q \in DOMAIN objs[last'.j][p] :
                objs'[last'.i][p][last'.path \o q] = objs[last'.j][p][q]]_vars
+\* C16: loading back from the generated store loses and invents nothing and
+\* leaves every existing object alone
+C16_ReloadSame ==
+  [][last'.a = "reload" =>
+       /\ \A p \in Parts \ {"state"} : objs'[Len(objs')][p] = objs[last'.i][p]
+       /\ \A k \in DOMAIN objs : objs'[k] = objs[k]]_vars
 \* C16: a generated composite holds everything under its path
 C16_EmbeddedUnderPath ==
   [][last'.a = "gen" =>
